@@ -153,6 +153,12 @@ def register(api):
         if seps != ["-", "#", ","]:
             raise api.ExtractError(f"hop predicate separators changed: {seps}")
         vals["SEP_ISD_ASN"], vals["SEP_ASN_IF"], vals["SEP_IF"] = seps
+        # Display must write the same separators that FromStr splits on
+        if not (re.search(r'write!\(f,\s*"-\{asn\}"\)', ty) and re.search(r'write!\(f,\s*"#\{interfaces\}"\)', ty)
+                and re.search(r'write!\(f,\s*"\{\},\{\}",\s*ingress\.0,\s*egress\.0\)', ty)):
+            raise api.ExtractError("Display of HopPredicate / InterfacesPredicate changed its separators")
+        if not re.search(r'write!\(f,\s*"\{asn_part:x\}\{separator\}"\)', asn) or not re.search(r'if i != 0 \{ ":" \} else \{ "" \}', asn):
+            raise api.ExtractError("Display of Asn changed")
 
         b = "namespace ScionVerif.Generated.Policy\n"
         b += "/-- `HopPatternLexer::RESERVED_CHARS` -/\n"
